@@ -44,7 +44,7 @@ func samplePlan(r *eng.Rand, pi int, logCols, maxLevel, maxLevelP int, bigN bool
 	n := 1 << logCols
 	var p plan
 	p.logCols = logCols
-	p.mode = modeTable[(pi+r.N(3))%len(modeTable)]
+	p.mode = modeTable[(pi*3+r.N(len(modeTable)))%len(modeTable)]
 	nlt := 1
 	if p.isMany() {
 		nlt = 2 + r.N(3)
@@ -74,6 +74,9 @@ func samplePlan(r *eng.Rand, pi int, logCols, maxLevel, maxLevelP int, bigN bool
 		p.ctLevel = maxLevel
 	}
 	p.outLevel = eng.Pick(r, p.ctLevel, maxLevel, lv())
+	if p.mode == mEvalIn {
+		p.outLevel = p.ctLevel // the receiver is the input
+	}
 	p.levelP = maxLevelP
 	if maxLevelP > 0 && r.N(3) == 0 {
 		p.levelP = r.N(maxLevelP + 1)
@@ -117,6 +120,14 @@ func samplePlan(r *eng.Rand, pi int, logCols, maxLevel, maxLevelP int, bigN bool
 			maxLT = lt.levelQ
 		}
 		p.lts = append(p.lts, lt)
+	}
+	if p.isMany() && r.N(3) == 0 {
+		// a list evaluated entirely with the naive algorithm (shares only the hoisted decomposition)
+		for i := range p.lts {
+			if len(p.lts[i].norm) <= 40 {
+				p.lts[i].ratio = -1
+			}
+		}
 	}
 	need := p.ctLevel
 	if maxLT < need {
@@ -208,4 +219,64 @@ func (p plan) nontrivial() bool {
 		}
 	}
 	return false
+}
+
+const (
+	sigDiag0   = "C12|common/lintrans.Evaluator.MultiplyByDiagMatrix|wrong-value|only-diagonal-0-naive"
+	sigClobber = "C12|common/lintrans.Evaluator.EvaluateMany|wrong-value|hoisted-decomposition-clobbered-by-earlier-giant-step"
+)
+
+// knownClass classifies a failing output i against the two triaged defects of the unchanged tree; the
+// predicates are computed from the program only (never from the observed values):
+//
+//   - "only-diagonal-0-naive": the matrix has the single diagonal 0 and is evaluated without BSGS
+//     (MultiplyByDiagMatrix then runs its ModDown on accumulators that were never written);
+//   - "hoisted-decomposition-clobbered-by-earlier-giant-step": EvaluateMany keeps the hoisted
+//     decomposition of the input in the evaluator's BuffDecompQP, an earlier matrix of the same call
+//     ran a giant-step key switch (GadgetProductLazy uses BuffDecompQP[0] as scratch) and matrix i
+//     needs a hoisted rotation that is computed after that.
+//
+// Returns the full signature of the triaged defect or "" (any other failure keeps the bare class).
+func (p plan) knownClass(i int, n1s []int, n int) string {
+	lt := p.lts[i]
+	if n1s[i] == 0 && !hasNonZero(lt.norm) {
+		return sigDiag0
+	}
+	if !p.isMany() || i == 0 {
+		return ""
+	}
+	// cache: hoisted rotations kept in ctPreRot (value = computed from a clobbered decomposition)
+	clobbered := false
+	cache := map[int]bool{}
+	for j := 0; j <= i; j++ {
+		l := p.lts[j]
+		if n1s[j] == 0 {
+			if j == i && clobbered && hasNonZero(l.norm) {
+				return sigClobber
+			}
+			continue
+		}
+		next := map[int]bool{}
+		for _, k := range l.norm {
+			if b := k % n1s[j]; b != 0 {
+				if tainted, ok := cache[b]; ok {
+					next[b] = tainted
+				} else {
+					next[b] = clobbered
+				}
+			}
+		}
+		if j == i {
+			for _, tainted := range next {
+				if tainted {
+					return sigClobber
+				}
+			}
+		}
+		cache = next
+		if _, giant, _ := rotCounts(l.norm, n, n1s[j]); giant > 0 {
+			clobbered = true
+		}
+	}
+	return ""
 }
